@@ -377,7 +377,7 @@ class T10(Tr):
         return isinstance(c, ast.Call) and self.dotted(c.func) in SKIP_CALLS
 
     def droppable(self, s):
-        if isinstance(s, ast.Expr) and isinstance(s.value, ast.Constant):
+        if isinstance(s, ast.Pass) or (isinstance(s, ast.Expr) and isinstance(s.value, ast.Constant)):
             return True
         if isinstance(s, ast.Expr) and self.is_skip_call(s.value):
             return True
